@@ -162,6 +162,14 @@ def run(ctx):
         if not eq(om, kk):
             ctx.violation("omega-is-not-kappa-of-the-recoded-sequence", {"seq": big[:40] + "...", "length": len(big)}, expected=kk, actual=om)
     patterning.judge_traces(ctx, trs)
+    # which groups are refused does not depend on the interpreter environment
+    from .. import orderswap
+    sq = common.random_sequences(ctx.rng, 1, 30, 12)[0]
+    items = [{"obj": 0, "seq": sq, "q": "get_kappa_X", "a": a_} for a_ in
+             ([["B"]], [["E", "D"], ["K", "Z"]], [["ED"], ["KR"]], [["1"]], [["K", "R", "*"]], [["K", ""]], [["K"], ["E", " "]], [["k", "x"]],
+              [["E", "D"], ["K", "R"]], [["P", "E", "D", "K", "R"]], [["g", "s"]], [["K"], ["E"]])]
+    items += [{"obj": 0, "seq": sq, "q": q, "a": []} for q in ("get_Omega", "get_kappa", "get_Omega_sequence")]
+    orderswap.env_differential(ctx, items, "kappaX-accepts-non-amino-acid", "c06env")
     ctx.sample({"trace": {"seq": "".join(trs[-1]["seq"]), "ev": [{k: e[k] for k in e if k != "r"} for e in trs[-1]["ev"]][:4]}})
     ctx.assumptions += ["swap law asserted for disjoint groups only; on overlap the first group wins (value judged by TLC)",
                         "exception type not constrained: any exception is a rejection"]
